@@ -366,6 +366,24 @@ func ruleC18Codec(c *Ctx) {
 	}
 	ew, dw := wrap(enc, "Encode"), wrap(dec, "Decode")
 	c.Check(ew != "" && ew == dw, "c18.codec-pairs", "encode/decode/gob-wrapper", c.P.Pos(enc.Pos()), "both sides use "+ew, fmt.Sprintf("the encoder gob-encodes %q, the decoder gob-decodes %q", ew, dw))
+	// NULL agreement: if the encoder maps NULL to NULL (without encoding it), the decoder must accept NULL
+	nullPassThrough := func(f *ssa.Function) bool {
+		paths, _ := WalkFunc(f, WalkCfg{MaxVisits: 1, MaxPaths: 3000, NoEffects: true})
+		for _, p := range paths {
+			if p.Exit != "return" || len(p.Ret) != 2 || !p.Ret[0].Nil || !p.Ret[1].Nil {
+				continue
+			}
+			for k, v := range p.Asg {
+				kt := p.KeyTerm[k]
+				if x, isN := isNilTest(kt); isN && isTrueC(v) && x.Op == "index" && x.Args[0].Op == "param" && x.Args[1].Name == "0" {
+					return true
+				}
+			}
+		}
+		return false
+	}
+	en, dn := nullPassThrough(enc), nullPassThrough(dec)
+	c.Check(!en || dn, "c18.codec-pairs", "encode/decode/null", c.P.Pos(enc.Pos()), fmt.Sprintf("NULL handling agrees (encoder passes NULL through: %v, decoder accepts NULL: %v)", en, dn), "ENCODE returns NULL for a NULL value without encoding it, but DECODE does not accept NULL: DECODE(ENCODE(NULL, b), b) fails")
 	// unknown label => error
 	for name, f := range map[string]*ssa.Function{"encode": enc, "decode": dec} {
 		arms, _ := c.labelArms(f)
